@@ -88,7 +88,7 @@ NOT_APPLICABLE["C20"] = "Builder::bind_addr_with_opts takes the Builder by value
 NOT_APPLICABLE["C22"] = "RemotePathState keeps its paths in FxHashMap<transports::Addr, PathState>: hashbrown insertion/lookup does not finish under CBMC (a 2-element map with concrete keys timed out at 150 s), so neither the resolve/answer protocol nor the never-empty invariant can be executed"
 NOT_APPLICABLE["C23"] = "prune_non_relay_paths works on FxHashMap<transports::Addr, PathState> with >= 30 entries plus a std HashSet and a sort: hashbrown does not finish under CBMC even for 2 concrete entries; the deviation found by reading (keeps len-10, not 10, inactive paths; pinned by test_prune_mixed_must_and_can_prune) is recorded in DESIGN section 5 as an observation only"
 NOT_APPLICABLE["C24"] = "BiasedRttPathSelector::select needs a PathSelectionContext, which outside cfg(test) can only be built from live noq connections (FxHashMap<ConnId, ConnectionState>, weak connection handles), and its bias table is an FxHashMap (hashbrown does not finish under CBMC)"
-NOT_APPLICABLE["C17"] = "RelayTransport::poll_recv was driven on a partially initialised transport (pending item + real mpsc receiver, Receiver::poll_recv stubbed to avoid tokio's thread-local): it compiles, but symbolic execution did not finish within 600 s (the io::Error construction/drop paths of the closed-channel branch cannot be cut: io::Error::new is not resolvable for stubbing on this toolchain); harness kept in kani/attic/. The wedge suspected by reading (segment_size > buffer => zero-length datagrams reported forever; oversize datagram => Pending without polling the channel) is recorded in DESIGN section 5 as an observation only"
+NOT_APPLICABLE["C17"] = "RelayTransport::poll_recv was driven on a partially initialised transport (pending item + real mpsc receiver, Receiver::poll_recv stubbed to avoid tokio's thread-local): it compiles, but symbolic execution did not finish within 600 s and ran out of memory (25 GB) in a 50-minute attempt (the io::Error construction/drop paths of the closed-channel branch cannot be cut: io::Error::new is not resolvable for stubbing on this toolchain); harness kept in kani/attic/. The wedge suspected by reading (segment_size > buffer => zero-length datagrams reported forever; oversize datagram => Pending without polling the channel) is recorded in DESIGN section 5 as an observation only"
 NOT_APPLICABLE["C29"] = "AddressLookupStream merges its services with futures-buffered's MergeBounded/FuturesUnorderedBounded: any harness that reaches its poll_next makes kani-compiler 0.68 panic (intrinsics.rs:243, thread-local with destructor); the stream's own 30-line state machine cannot be driven without it (harness kept in kani/attic/)"
 NOT_APPLICABLE["C30"] = "needs interleavings of add_boxed and publish at lock boundaries: Kani has no threads; the planned nested-call schedule encoding needs pause hooks placed between two critical sections of the real code, which a correct (lock-holding) implementation does not have - the check could then no longer detect the regression it is meant for; the lost update found by reading (add reads last_data, a publish runs, the service is pushed with stale data) is an observation in DESIGN section 5"
 _UNUSED_C31 = "the subject is string formatting/parsing of TXT attributes (format!, Display, FromStr, split): formatting machinery does not finish under CBMC (a single format! of a u64 timed out at 15 min) and the attribute table is a BTreeMap of Strings"
